@@ -92,7 +92,7 @@ func errorReturned(fn *ssa.Function, ev ssa.Value) (bool, string) {
 				for _, in := range b.Instrs {
 					if ret, ok := in.(*ssa.Return); ok && len(ret.Results) > 0 {
 						n++
-						if an.IsNilConst(ret.Results[len(ret.Results)-1]) {
+						if an.IsNilConst(an.RetVal(ret, len(ret.Results)-1)) {
 							okAll = false
 						}
 					}
@@ -131,7 +131,7 @@ func errorReturned(fn *ssa.Function, ev ssa.Value) (bool, string) {
 			continue
 		}
 		for _, in := range b.Instrs {
-			if ret, ok := in.(*ssa.Return); ok && len(ret.Results) > 0 && an.IsNilConst(ret.Results[len(ret.Results)-1]) {
+			if ret, ok := in.(*ssa.Return); ok && len(ret.Results) > 0 && an.IsNilConst(an.RetVal(ret, len(ret.Results)-1)) {
 				// reachable nil-error return with err != nil: acceptable only behind a further classification call on err (errs.IsNotFound)
 				return false, "with err != nil a return with a nil error stays reachable"
 			}
@@ -194,7 +194,7 @@ func c12(c *Ctx) {
 					if !isRet {
 						continue
 					}
-					if n := len(ret.Results); n > 0 && typeString(ret.Results[n-1].Type()) == "error" && an.NonNilError(ret.Results[n-1], rb) {
+					if n := len(ret.Results); n > 0 && typeString(an.RetVal(ret, n-1).Type()) == "error" && an.NonNilError(an.RetVal(ret, n-1), rb) {
 						continue
 					}
 					if !an.InstrDominates(st, ret) {
@@ -340,7 +340,7 @@ func c12(c *Ctx) {
 			}
 			if k, isK := an.ConstInt(an.Unconv(cd.Y)); isK && k == 2 { // syscall.ENOENT
 				for _, in := range cd.EdgeWhen(true).To().Instrs {
-					if ret, okr := in.(*ssa.Return); okr && len(ret.Results) == 2 && strings.Contains(tr.OriginString(ret.Results[1]), "errs.NotFound") {
+					if ret, okr := in.(*ssa.Return); okr && len(ret.Results) == 2 && strings.Contains(tr.OriginString(an.RetVal(ret, 1)), "errs.NotFound") {
 						ok = true
 					}
 				}
@@ -383,7 +383,7 @@ func c12(c *Ctx) {
 		var hits []ssa.Instruction
 		for _, b := range f.Blocks {
 			for _, in := range b.Instrs {
-				if ret, ok := in.(*ssa.Return); ok && len(ret.Results) == 2 && strings.Contains(tr.OriginString(ret.Results[0]), "genericFileSessionLoader.cached") {
+				if ret, ok := in.(*ssa.Return); ok && len(ret.Results) == 2 && strings.Contains(tr.OriginString(an.RetVal(ret, 0)), "genericFileSessionLoader.cached") {
 					hits = append(hits, ret)
 				}
 			}
@@ -546,6 +546,42 @@ func c12(c *Ctx) {
 		}
 	}
 
+	// the counterpart on the read side: what is parsed is the whole file, whatever its size ("any length")
+	if f := c.P.Func(load.SessPkg, "*genericFileSessionLoader", "Load"); f != nil {
+		n := 0
+		for _, cs := range an.CallsNamed(f, "encoding/json.Unmarshal") {
+			n++
+			verdict := "the parsed bytes come from " + simplifyOrigin(tr.OriginString(cs.Common.Args[0])) + ", not from a read of the whole file"
+			okRead := false
+			src := cs.Common.Args[0]
+			if ex, isEx := src.(*ssa.Extract); isEx && ex.Index == 0 {
+				if call, isCall := ex.Tuple.(*ssa.Call); isCall {
+					switch an.CalleeName(call.Common()) {
+					case "io/ioutil.ReadFile", "os.ReadFile":
+						okRead = true
+					case "io/ioutil.ReadAll", "io.ReadAll":
+						rd := call.Call.Args[0]
+						if mi, isMI := rd.(*ssa.MakeInterface); isMI {
+							rd = mi.X
+						}
+						if e2, isE2 := rd.(*ssa.Extract); isE2 && e2.Index == 0 {
+							if c2, isC2 := e2.Tuple.(*ssa.Call); isC2 && (an.CalleeName(c2.Common()) == "os.Open" || an.CalleeName(c2.Common()) == "os.OpenFile") {
+								okRead = true
+							}
+						}
+						if !okRead {
+							verdict = "ReadAll reads from " + simplifyOrigin(tr.OriginString(call.Call.Args[0])) + ", not from the file itself: a limited or buffered reader in between cuts a session that is longer than it expects, and the intact file is reported as torn"
+						}
+					}
+				}
+			}
+			r.Check(okRead, "R12.W", sprintf("load:whole-file-read#%d", n), c.pos(cs.Pos()), verdict)
+		}
+		if n == 0 {
+			r.Undecide("R12.W", "load:whole-file-read", c.pos(f.Pos()), "no json.Unmarshal call in Load")
+		}
+	}
+
 	// ---- R12.R ----------------------------------------------------------------------------------
 	if f := c.fn("R12.R", load.RootMod, "*MTProto", "CreateConnection"); f != nil {
 		var calls []ssa.Instruction
@@ -608,7 +644,7 @@ func (c *Ctx) storeSuccessMeansWritten(rule string, f *ssa.Function) {
 	nExit := 0
 	for _, b := range f.Blocks {
 		ret, ok := b.Instrs[len(b.Instrs)-1].(*ssa.Return)
-		if !ok || len(ret.Results) != 1 || an.NonNilError(ret.Results[0], b) {
+		if !ok || len(ret.Results) != 1 || an.NonNilError(an.RetVal(ret, 0), b) {
 			continue
 		}
 		nExit++
